@@ -380,6 +380,48 @@ pub fn followup_case(seed: u64, l: &mut Local) {
     }
 }
 
+/// "for as long as it runs": a second browse of the type whose receiver is dropped before the daemon gets to
+/// it either replaces the search or is ignored - in both readings questions for the type keep going out.
+pub fn abandoned_rebrowse_case(seed: u64, l: &mut Local) {
+    let mut rng = Rng::new(seed);
+    let mut w = World::new(seed);
+    let stepping = if rng.chance(1, 3) { Stepping::Eager(10) } else { Stepping::Lazy };
+    w.set_stepping(stepping);
+    let h = w.add_host(if rng.chance(1, 3) { scen::single_dual() } else { scen::single_v4() });
+    w.set_ip_check_interval(h, 3600);
+    let ty = "_t._udp.local.";
+    let t0 = w.now();
+    let Some(_kept) = w.browse(h, ty) else { return };
+    let d = *rng.pick(&[0u64, 200, 1000, 1500, 3500, 8000]);
+    w.run_until(t0 + d);
+    let cache_only = rng.chance(1, 4);
+    let c2 = if cache_only { w.browse_cache(h, ty) } else { w.browse(h, ty) };
+    if let Some(c2) = c2 {
+        w.drop_chan(c2);
+    }
+    let t2 = w.now();
+    w.run_until(t2 + 34_000);
+    l.evaluations += 1;
+    l.distinct.insert(util::fnv_str(&format!("abandoned|{d}|{cache_only}|{stepping:?}")));
+    if w.trace.deaths().any(|d| matches!(d.ev, Ev::Death { panicked: true, .. })) {
+        l.inconclusive.push(format!("daemon died in a C19 scenario (seed {seed})"));
+        return;
+    }
+    l.act("B1-abandoned-rebrowse");
+    let ty_name = scen::wire_name(ty);
+    let txs = scen::tx_msgs(&w.trace, 0);
+    let mut later: Vec<u64> = txs.iter().filter(|tx| tx.t > t2 && tx.msg.is_query() && scen::has_question(tx.msg, &ty_name, wire::T_PTR)).map(|tx| tx.t - t2).collect();
+    later.dedup();
+    // whichever chain is the right one (started at the first call or at the second), it has at least two
+    // instants inside 34 s
+    if later.len() < 2 {
+        l.violate(
+            Violation::new("B1", "B1/search-fell-silent/after-abandoned-second-browse", format!("a second {} of the type was issued {d} ms into the search and its receiver dropped at once; in the 34 s after that the type was asked for at {later:?} ms only", if cache_only { "browse_cache" } else { "browse" }))
+                .with(json!({"trace": scen::witness_window(&w.trace, t0, t2 + 34_000, 50)})),
+        );
+    }
+}
+
 /// B5: an explicit verify request is exempt from the schedule of the search, not from backing off: the
 /// questions it causes about the instance and its host may come at the request, one second later, three
 /// seconds later ... (the doubling chain started afresh), never more often.
@@ -474,7 +516,7 @@ pub fn run(report: &Report, tier: &Tier) {
          distinct by (mode, stepping, operation sequence) / staging",
     );
     report.assume("services of browsed types live on hosts nobody resolves by name; in the search workloads follow-up and verify queries (instance ANY/SRV/TXT, host A/AAAA of browsed instances) are not attributed; the follow-up exemption is judged by B4 on staged deliveries");
-    for r in ["B1", "B2", "B3", "B4", "B5"] {
+    for r in ["B1", "B2", "B3", "B4", "B5", "B1-abandoned-rebrowse"] {
         report.floor(r, 50);
     }
     report.floor("B2-refresh", 5);
@@ -485,6 +527,8 @@ pub fn run(report: &Report, tier: &Tier) {
     run_parallel(report, nf, threads(), tier.budget_s * 0.15, |i, l| {
         if i % 3 == 2 {
             verify_case(util::mix(seed, 0xC19_E000 + i), l);
+        } else if i % 6 == 1 {
+            abandoned_rebrowse_case(util::mix(seed, 0xC19_D000 + i), l);
         } else {
             followup_case(util::mix(seed, 0xC19_F000 + i), l);
         }
